@@ -110,8 +110,13 @@ impl fmt::Debug for Cell {
                 _ => write!(f, "{}", n),
             },
             Cell::Real(r) => write!(f, "{}", r),
-            Cell::Str(s) if flags.fitscreen() && s.len() > STR_ELIDE_LEN =>
-                write!(f, "\"{} ...", s.split_at(STR_ELIDE_LEN).0),
+            Cell::Str(s) if flags.fitscreen() && s.len() > STR_ELIDE_LEN => {
+                let mut end = STR_ELIDE_LEN;
+                while !s.is_char_boundary(end) {
+                    end -= 1;
+                }
+                write!(f, "\"{} ...", &s[..end])
+            }
             Cell::Str(s) => write!(f, "{:?}", s.as_str()),
             Cell::Vector(v) => {
                 f.write_str("[ ")?;
